@@ -9,6 +9,7 @@ pub mod oracle;
 pub mod proj;
 pub mod report;
 pub mod rng;
+pub mod sanitize;
 pub mod sentry;
 pub mod service;
 pub mod sim;
